@@ -4,6 +4,7 @@
   correspondence check ties to `lumicks/pylake/fitting` on every run.
 -/
 import Verif.Lemmas.C13
+import Verif.Lemmas.C13b
 
 namespace Verif.C13
 open Verif RealLike
@@ -674,6 +675,107 @@ example : (0:ℝ) < cubDet (0:ℝ) 3 0 ∧ regularised (0:ℝ) 3 0 = false := by
     rw [decide_eq_false_iff_not]; norm_num
   refine ⟨by rw [hd]; norm_num, ?_⟩
   simp only [regularised, hd, hq, hlt, if_true, hs, ha', ha'', hc, RealLike.sq, mul_one, ha, hbig, Bool.or_self]
+
+
+
+/-! ## Deepening round D: the trigonometric branch (`det < 0`, `calc_triple_root`) and the full statement -/
+
+/-- `det < 0` (three distinct real roots; `calc_cubic_root` uses the trigonometric form, `calc_cubic_root_derivatives`
+    goes through `calc_triple_root`): for each of the three roots `k` the code's chain rule through
+    `arcsin`/`sin`/`cos` EQUALS `(−y²/P'(y), −y/P'(y), −1/P'(y))` at the root the code returns.  No band hypothesis:
+    `det < 0` already gives `|F| < 1` (`trig_band_free`). -/
+theorem trig_chain_eq_implicit (a b c : ℝ) (k : Nat) (hdet : cubDet a b c < 0) :
+    calcCubicRootDerivs a b c k = implicitDerivs a b (calcCubicRoot a b c k) :=
+  (trig_root_all a b c k hdet).1
+
+example : cubDet (0:ℝ) (-3) 0 < 0 := by simp only [cubDet, cubP, cubQ]; norm_num
+
+/-- for `det < 0` the band predicate is false: `|F| < 1` is implied, nothing is excluded on this branch -/
+theorem trig_band_free (a b c : ℝ) (hdet : cubDet a b c < 0) : regularised a b c = false := by
+  obtain ⟨_, hlt, _, hF⟩ := trig_facts a b c hdet
+  have : RealLike.lt (RealLike.abs (trigArg (cubP a b) (cubQ a b c))) (1.0:ℝ) = true := by
+    show decide (|trigArg (cubP a b) (cubQ a b c)| < (1.0:ℝ)) = true
+    rw [decide_eq_true_eq]; norm_num; exact hF
+  simp only [regularised, hlt, Bool.false_eq_true, if_false, this, Bool.not_true]
+
+/-- the root `calc_cubic_root` returns for `det < 0` IS a root of `y³ + a y² + b y + c`, and a simple one -/
+theorem trig_root_is_simple_root (a b c : ℝ) (k : Nat) (hdet : cubDet a b c < 0) :
+    cubicPoly a b c (calcCubicRoot a b c k) = 0 ∧ cubicPoly' a b (calcCubicRoot a b c k) ≠ 0 :=
+  (trig_root_all a b c k hdet).2
+
+/-- `cardano_chain_eq_implicit` (DESIGN ext item), FULL: on both branches, off the regularised band, the triple
+    `calc_cubic_root_derivatives(a, b, c, k)` is the implicit-function triple at `calc_cubic_root(a, b, c, k)`.
+    `det ≠ 0` is needed only because the band predicate is read at `ℝ` with `x/0 = 0`: at `det = 0` the band
+    contains everything (`|F| = 1`) except the triple root `p = q = 0`, where `F = 0/0` is NaN (in the band) for
+    the executing `Float` model and `0` for `ℝ` — `det_ne_zero_necessary` is the witness. -/
+theorem cardano_chain_eq_implicit (a b c : ℝ) (k : Nat) (hdet : cubDet a b c ≠ 0)
+    (hreg : regularised a b c = false) :
+    calcCubicRootDerivs a b c k = implicitDerivs a b (calcCubicRoot a b c k) := by
+  rcases lt_or_gt_of_ne hdet with h | h
+  · exact (trig_root_all a b c k h).1
+  · exact cardano_chain_eq_implicit_aux a b c k h hreg
+
+example : cubDet (0:ℝ) (-3) 0 ≠ 0 ∧ regularised (0:ℝ) (-3) 0 = false :=
+  have h : cubDet (0:ℝ) (-3) 0 < 0 := by simp only [cubDet, cubP, cubQ]; norm_num
+  ⟨h.ne, trig_band_free _ _ _ h⟩
+
+/-- the hypothesis `det ≠ 0` of `cardano_chain_eq_implicit` cannot be dropped (triple root `y³ = 0`) -/
+theorem det_ne_zero_necessary :
+    cubDet (0:ℝ) 0 0 = 0 ∧ regularised (0:ℝ) 0 0 = false ∧
+    calcCubicRootDerivs (0:ℝ) 0 0 0 ≠ implicitDerivs 0 0 (calcCubicRoot (0:ℝ) 0 0 0) := by
+  have hp : cubP (0:ℝ) 0 = 0 := by simp only [cubP]; norm_num
+  have hq : cubQ (0:ℝ) 0 0 = 0 := by simp only [cubQ]; norm_num
+  have hd : cubDet (0:ℝ) 0 0 = 0 := by simp only [cubDet, hp, hq]; norm_num
+  have hlt : RealLike.lt (0.0:ℝ) (0:ℝ) = false := by
+    show decide ((0.0:ℝ) < 0) = false
+    rw [decide_eq_false_iff_not]; norm_num
+  have hle : RealLike.le (0.0:ℝ) (0:ℝ) = true := by
+    show decide ((0.0:ℝ) ≤ 0) = true
+    rw [decide_eq_true_eq]; norm_num
+  have hF : trigArg (0:ℝ) 0 = 0 := by simp only [trigArg]; norm_num
+  have habs : RealLike.lt (RealLike.abs (0:ℝ)) (1.0:ℝ) = true := by
+    show decide (|(0:ℝ)| < 1.0) = true
+    rw [decide_eq_true_eq]; norm_num
+  refine ⟨hd, ?_, ?_⟩
+  · simp only [regularised, hd, hp, hq, hlt, hF, habs, Bool.false_eq_true, if_false, Bool.not_true]
+  · intro h
+    have h1 := congrArg Prod.fst h
+    simp only [calcCubicRootDerivs, hd, hp, hq, hlt, Bool.false_eq_true, if_false, calcTripleRoot, implicitDerivs,
+      calcCubicRoot, hle, if_true, cubicPoly'_real, RealLike.sqrt] at h1
+    have hc0 : RealLike.cbrt (0:ℝ) = 0 := by
+      show Verif.Real.cbrt 0 = 0
+      unfold Verif.Real.cbrt
+      rw [if_pos le_rfl]; exact Real.zero_rpow (by norm_num)
+    norm_num at h1
+    rw [hc0] at h1
+    norm_num at h1
+
+/-- consequently the Jacobian / derivative of the four cubic models, as the code computes them, are the ones
+    assembled from the implicit-function root derivatives on BOTH branches off the band (supersedes
+    `cubic_jac_eq_implicit_cardano`) -/
+theorem cubic_jac_eq_implicit :
+    (∀ d Lp Lc St kT : ℝ, cubDet (OF.a d Lp Lc St kT) (OF.b d Lp Lc St kT) (OF.c d Lp Lc St kT) ≠ 0 →
+      regularised (OF.a d Lp Lc St kT) (OF.b d Lp Lc St kT) (OF.c d Lp Lc St kT) = false →
+      OF.jac d Lp Lc St kT = OF.jacWith (implicitDerivs (OF.a d Lp Lc St kT) (OF.b d Lp Lc St kT) (OF.val d Lp Lc St kT)) d Lp Lc St kT ∧
+      OF.der d Lp Lc St kT = OF.derWith (implicitDerivs (OF.a d Lp Lc St kT) (OF.b d Lp Lc St kT) (OF.val d Lp Lc St kT)) d Lp Lc St kT) ∧
+    (∀ f Lp Lc kT : ℝ, cubDet (WD.a f Lp Lc kT) (WD.b f Lp Lc kT) (WD.c f Lp Lc kT) ≠ 0 →
+      regularised (WD.a f Lp Lc kT) (WD.b f Lp Lc kT) (WD.c f Lp Lc kT) = false →
+      WD.jac f Lp Lc kT = WD.jacWith (implicitDerivs (WD.a f Lp Lc kT) (WD.b f Lp Lc kT) (WD.val f Lp Lc kT)) f Lp Lc kT ∧
+      WD.der f Lp Lc kT = WD.derWith (implicitDerivs (WD.a f Lp Lc kT) (WD.b f Lp Lc kT) (WD.val f Lp Lc kT)) f Lp Lc kT) ∧
+    (∀ d Lp Lc St kT : ℝ, cubDet (EF.a d Lp Lc St kT) (EF.b d Lp Lc St kT) (EF.c d Lp Lc St kT) ≠ 0 →
+      regularised (EF.a d Lp Lc St kT) (EF.b d Lp Lc St kT) (EF.c d Lp Lc St kT) = false →
+      EF.jac d Lp Lc St kT = EF.jacWith (implicitDerivs (EF.a d Lp Lc St kT) (EF.b d Lp Lc St kT) (EF.val d Lp Lc St kT)) d Lp Lc St kT ∧
+      EF.der d Lp Lc St kT = EF.derWith (implicitDerivs (EF.a d Lp Lc St kT) (EF.b d Lp Lc St kT) (EF.val d Lp Lc St kT)) d Lp Lc St kT) ∧
+    (∀ f Lp Lc St kT : ℝ, cubDet (ED.a f Lp Lc St kT) (ED.b f Lp Lc St kT) (ED.c f Lp Lc St kT) ≠ 0 →
+      regularised (ED.a f Lp Lc St kT) (ED.b f Lp Lc St kT) (ED.c f Lp Lc St kT) = false →
+      ED.jac f Lp Lc St kT = ED.jacWith (implicitDerivs (ED.a f Lp Lc St kT) (ED.b f Lp Lc St kT) (ED.val f Lp Lc St kT)) f Lp Lc St kT ∧
+      ED.der f Lp Lc St kT = ED.derWith (implicitDerivs (ED.a f Lp Lc St kT) (ED.b f Lp Lc St kT) (ED.val f Lp Lc St kT)) f Lp Lc St kT) := by
+  refine ⟨fun d Lp Lc St kT h1 h2 => ?_, fun f Lp Lc kT h1 h2 => ?_, fun d Lp Lc St kT h1 h2 => ?_,
+    fun f Lp Lc St kT h1 h2 => ?_⟩
+  · simp only [OF.jac, OF.der, OF.val, cardano_chain_eq_implicit _ _ _ 2 h1 h2, and_self]
+  · simp only [WD.jac, WD.der, WD.val, cardano_chain_eq_implicit _ _ _ 1 h1 h2, and_self]
+  · simp only [EF.jac, EF.der, EF.val, cardano_chain_eq_implicit _ _ _ 2 h1 h2, and_self]
+  · simp only [ED.jac, ED.der, ED.val, cardano_chain_eq_implicit _ _ _ 1 h1 h2, and_self]
 
 
 /-! ## ext: twistable WLC and extensible FJC, derivative w.r.t. the force -/
